@@ -36,6 +36,8 @@ package fs
 
 //@ func (*fsDb).ToKey
 //@   serves C10, C11
+// binary keys are written with the alphabet the listing decodes with (DecodeKey): standard base64
+//@   callsite (*encoding/base64.Encoding).EncodeToString assert[C10] @std arg0 == base64.StdEncoding
 //@   requires fsOk(fdb) && ctx != nil
 //@   premise !sameBacking(key, fdb.DbBase.baseDb.sid)
 //@   modifies fdb.DbBase.baseDb.sid[len(fdb.DbBase.baseDb.sid):cap(fdb.DbBase.baseDb.sid)], key[len(key):cap(key)]
